@@ -256,8 +256,12 @@ def opRff (G : GenOps) (ms : Array RawMat) : Option String := do
   let P := primOf #[] Ch.2.2 ((Sq_.2.2[0]?.bind (·[0]?)).getD 0)
   let gInner := G.rffInnerTerm P c f (K.add Sigma)
   let gCov := G.rffPredictiveCovar P c fs (G.rffCovarCache P c f (K.add Sigma))
+  -- training objective pieces: rᵀ A⁻¹ r and det A (A = c F Fᵀ + Σ)
+  let quad := ((r.transpose.mul (Ainv.mul r)).get 0 0)
+  let (_, dpiv) ← DMat.ldl? (K.add Sigma)
+  let det := (List.finRange n).foldl (fun acc i => acc * dpiv i) (1 : Rat)
   pure (joinOut [sh K, sh Ksx, sh Kss, sh mu, sh cov, sh inner, sh covR, showRat (normInf (K.add Sigma) * normInf Ainv),
-    sh gInner, sh gCov])
+    sh gInner, sh gCov, showRat quad, showRat det])
 
 /-- interp eps d grid_0 … grid_{d-1} X   (grids as G×1, X as npts×d; eps as 1×1, 0 = default)
 replies: indices (npts × nc^d) | values -/
@@ -339,7 +343,8 @@ def genHistory (G : GenOps) {g : Nat} (st : DMat g g Rat × DMat g 1 Rat) : List
 the same base object.  replies: Kxx | Ksx | Kss | mean | cov | cond | generated mean (as `kiss`) | per request: dense-conditional mean | covariance (on base ++ fantasy_k data) |
 response cache handed to strategy k (model history) | the same through the GENERATED transition threaded through the
 history | ‖generated inner product − model‖∞ | exact WISKI mean (small grids, else zeros) |
-finally: response cache of the BASE object after the history (model) | generated | ‖generated base inner product − model‖∞ -/
+finally: response cache of the BASE object after the history (model) | generated | ‖generated base inner product − model‖∞ |
+rᵀ A⁻¹ r | det A (training objective of the base data) -/
 def opKissHist (G : GenOps) (ms : Array RawMat) : Option String := do
   let W ← ms[0]?; let Ws ← ms[1]?; let Kuu ← ms[2]?; let Nz ← ms[3]?; let Rr ← ms[4]?
   let n := W.1; let g := W.2.1; let ns := Ws.1
@@ -352,6 +357,10 @@ def opKissHist (G : GenOps) (ms : Array RawMat) : Option String := do
   let mean := interpApply ws (interpMeanCache kuu w Ainv r)
   let cov := condCovar Kss Ksx Ainv
   let gmean := G.interpPredictiveMean kuu w ws (G.interpMeanCache (primOf #[] #[] 0) kuu w (Kxx.add Sigma) r DMat.zero) DMat.zero
+  -- training objective pieces: rᵀ A⁻¹ r and det A (A = W K_uu Wᵀ + Σ)
+  let quad := ((r.transpose.mul (Ainv.mul r)).get 0 0)
+  let (_, dpiv) ← DMat.ldl? (Kxx.add Sigma)
+  let det := (List.finRange n).foldl (fun acc i => acc * dpiv i) (1 : Rat)
   let dinv : Fin n → Rat := fun i => (colFn nz i)⁻¹
   let base : WiskiState g Rat := wiskiBase w dinv r
   if (ms.size - 5) % 4 ≠ 0 then none else
@@ -380,7 +389,7 @@ def opKissHist (G : GenOps) (ms : Array RawMat) : Option String := do
       else pure DMat.zero : Option (DMat ns 1 Rat))
     pure [sh dm, sh dc, sh mst.response, sh gst.2, showRat (normInf (gst.1.sub mst.innerProd)), sh fmean]
   pure (joinOut ([sh Kxx, sh Ksx, sh Kss, sh mean, sh cov, showRat (normInf (Kxx.add Sigma) * normInf Ainv), sh gmean] ++ per.flatten ++
-    [sh hist.1.response, sh gres.1.2, showRat (normInf (gres.1.1.sub hist.1.innerProd))]))
+    [sh hist.1.response, sh gres.1.2, showRat (normInf (gres.1.1.sub hist.1.innerProd)), showRat quad, showRat det]))
 
 def modeCode : CopyMode → Rat
   | .memo => 0 | .fresh => 1 | .shared => 2 | .other => 3
